@@ -18,6 +18,9 @@ type report struct {
 }
 
 func (r *report) fail(key, format string, a ...any) {
+	if k, ok := keyAlias[key]; ok {
+		key = k
+	}
 	r.fails = append(r.fails, [2]string{key, fmt.Sprintf(format, a...)})
 }
 func (r *report) count(n string) { r.counts = append(r.counts, n) }
@@ -85,6 +88,19 @@ func safeStr(f func(any) string, v any) (s string, err error) {
 		}
 	}()
 	return f(v), nil
+}
+
+func (c *codec) normFn() func(any) string {
+	if c.norm != nil {
+		return c.norm
+	}
+	return c.showFn()
+}
+
+// keyAlias maps generic failure keys onto the specific key of a known root cause.
+var keyAlias = map[string]string{
+	"aer-decode-alloc": "aer-uncapped-array", // AppExecResult.DecodeBinary: ReadArray(&Events/&Invocations) without a cap
+	"aer-decode-slow":  "aer-uncapped-array",
 }
 
 func (c *codec) showFn() func(any) string {
@@ -167,8 +183,10 @@ func checkBytes(c *codec, b []byte, rep *report) {
 		rep.fail(c.name+"-reencode-rest", "re-encoding not consumed entirely (%d left): %s", d2.rest, trunc(hx.Hex(b2), 200))
 		return
 	}
-	sv2, err := safeStr(show, d2.v)
-	if err != nil || sv2 != sv {
+	norm := c.normFn()
+	nv, _ := safeStr(norm, v)
+	sv2, err := safeStr(norm, d2.v)
+	if err != nil || sv2 != nv {
 		rep.fail(c.name+"-reencode-differs", "decode(encode(decode b)) != decode b: b=%s: %s vs %s", trunc(hx.Hex(b), 200), trunc(sv, 200), trunc(sv2, 200))
 		return
 	}
@@ -192,12 +210,12 @@ func checkBytes(c *codec, b []byte, rep *report) {
 			return
 		}
 		rep.count("json:roundtrip")
-		sv3, err := safeStr(show, v3)
-		if err != nil || sv3 != sv {
+		sv3, err := safeStr(norm, v3)
+		if err != nil || sv3 != nv {
 			rep.fail(c.name+"-json-differs", "JSON round trip changes the value: b=%s: %s vs %s", trunc(hx.Hex(b), 200), trunc(sv, 200), trunc(sv3, 200))
 			return
 		}
-		if b4, err := safeEnc(c, v3); err != nil || !bytes.Equal(b4, b2) {
+		if b4, err := safeEnc(c, v3); !c.looseEnc && (err != nil || !bytes.Equal(b4, b2)) {
 			rep.fail(c.name+"-json-encoding", "value read from JSON encodes differently: b=%s", trunc(hx.Hex(b), 200))
 		}
 		if c.hash != nil {
